@@ -18,6 +18,7 @@ class IsNonRandExprVisitor(ModelVisitor):
         return self._is_nonrand
 
     def visit_expr_fieldref(self, e):
-        self._is_nonrand = not e.fm.is_used_rand
+        # Non-random only if every referenced field is non-random
+        self._is_nonrand &= not e.fm.is_used_rand
         
         
